@@ -129,9 +129,20 @@ def rule_changeset_iff_write(ctx, rep):
         def ev(call):
             return "EV:write" if id(call) in wids else None
 
+        # handlers of a try whose body contains the write: entering one means the write may have failed (I/O failure)
+        wfail_handlers = set()
+        for tr in walk_no_nested(fn.node):
+            if isinstance(tr, ast.Try):
+                body_nodes = {id(x) for st in tr.body for x in ast.walk(st)}
+                if any(i in body_nodes for i in wids):
+                    wfail_handlers |= {id(h) for h in tr.handlers}
+
+        def hev(node):
+            return "EV:write-failed" if id(node) in wfail_handlers else None
+
         for dry in (False, True):
             entry = {(dry, t) for t in texts}
-            fa = FlowAnalysis(fn.node, ev, entry)
+            fa = FlowAnalysis(fn.node, ev, entry, node_event=hev)
             n_cs = 0
             for ex in fa.exits:
                 if ex.kind == "raise":
@@ -149,7 +160,8 @@ def rule_changeset_iff_write(ctx, rep):
                     ok = wrote_all
                     msg = "a ChangeSet is returned on a path that has not written the file (report names a change that was not made)"
                 elif kind == "none":
-                    ok = (not wrote_some) or _in_handler_after_write(ctx, fn, ex.node, [w["call"] for w in writes])
+                    # every alternative of this exit either wrote nothing or went through the write's failure handler
+                    ok = all("EV:write" not in may or (True, "EV:write-failed") in must for must, may in ex.state.parts)
                     msg = "returns None (no changeset) on a path that has written the file (a changed file without a changeset)"
                 else:
                     ok = True
